@@ -152,6 +152,15 @@ def doGetData (sv : Server) (sid : Nat) (keys : List (Bytes × Option Filt)) : S
 
 def subscribePrefix : Bytes := "SUBSCRIBE:".toUTF8.toList
 
+/-- the parameter list after SUBSCRIBE:<path>: one subscription, one listed spelling — another SUBSCRIBE: name that normalises
+    to the same path is dropped, the current spelling is listed (once) -/
+def subParams (params : List Bytes) (path : Bytes) : List Bytes :=
+  let pname := subscribePrefix ++ path
+  let fix := adjustPrefix path (some defaultPrefix)
+  let ps := params.filter (fun n => n = pname ||
+    !(subscribePrefix.isPrefixOf n && adjustPrefix (n.drop subscribePrefix.length) (some defaultPrefix) = fix))
+  if ps.contains pname then ps else ps ++ [pname]
+
 /-- PR_COMMAND_SETPARAMETERS with one `SUBSCRIBE:<path>` field (optionally holding a filter) -/
 def subscribe (sv : Server) (sid : Nat) (path : Bytes) (f : Option Filt) : Server :=
   match sv.sess? sid with
@@ -181,7 +190,7 @@ def subscribe (sv : Server) (sid : Nat) (path : Bytes) (f : Option Filt) : Serve
         let sv := sv.updSess sid (fun s => { s with subs := pmPut s.subs fix f })
         subscribeRefs sv sid (pmPut [] fix none) (some 1)
     let pname := subscribePrefix ++ path
-    let sv := sv.updSess sid (fun s => { s with params := if s.params.contains pname then s.params else s.params ++ [pname] })
+    let sv := sv.updSess sid (fun s => { s with params := subParams s.params path })
     doGetData sv sid [(path, f)]
 
 /-- `RemoveParameter("SUBSCRIBE:<path>")` -/
